@@ -4200,11 +4200,16 @@ bool llbuild::buildsystem::pathIsPrefixedByPath(std::string path,
                std::string::npos;
   }
   auto res = std::mismatch(prefixPath.begin(), prefixPath.end(), path.begin());
+  // A fully matched prefix that itself ends in a separator ("/foo/" against
+  // "/foo/bar") already ends at a component boundary.
+  bool prefixEndsAtBoundary =
+      res.first == prefixPath.end() && !prefixPath.empty() &&
+      pathSeparators.find(prefixPath.back()) != std::string::npos;
   // Check if `prefixPath` has been exhausted or just a separator remains.
   bool isPrefix = res.first == prefixPath.end() ||
                   (pathSeparators.find(*(res.first++)) != std::string::npos);
   // Check if `path` has been exhausted or just a separator remains.
   return isPrefix &&
-         (res.second == path.end() ||
+         (res.second == path.end() || prefixEndsAtBoundary ||
           (pathSeparators.find(*(res.second++)) != std::string::npos));
 }
